@@ -88,6 +88,11 @@ def corpus():
                                                                      ["del", "k"], ["reopen"], ["keys"], ["get", "https://rp.example.org/cb?x=1 2"], ["get", "k"],
                                                                      ["del", "https://rp.example.org/cb?x=1 2"], ["reopen"], ["keys"], ["len"]]})
     out.append({"t": "fs", "kconv": "qp", "vconv": "json", "ops": [["set", "a b", "1"], ["set", "a+b", "2"], ["set", "a%20b", "3"], ["clear"], ["reopen"], ["keys"], ["len"]]})
+    # keys that look like converted file names already ('+', well-formed %XX): the conversion must stay injective, a new instance lists what was written
+    out.append({"t": "fs", "kconv": "qp", "vconv": "json", "ops": [["set", "rp+one", "1"], ["reopen"], ["keys"], ["get", "rp+one"], ["contains", "rp one"], ["get", "rp one"],
+                                                                     ["set", "rp one", "2"], ["reopen"], ["keys"], ["get", "rp+one"], ["get", "rp one"],
+                                                                     ["set", "rp%2Fone", "3"], ["reopen"], ["keys"], ["contains", "rp/one"], ["get", "rp%2Fone"], ["del", "rp/one"],
+                                                                     ["reopen"], ["keys"], ["len"]]})
     return out
 
 
